@@ -6,7 +6,7 @@ from vlib import Rng, fhex, unhex
 import remesh_common as RC
 
 HARNESS = os.path.join(vlib.VERIF, "harness", "h_division.cpp")
-OPAQUE = ("tri", "centroid", "axis", "axisfree", "divide", "popclear", "popadd", "popready", "poptake", "round")   # answered by the real code only
+OPAQUE = ("tri", "centroid", "axis", "axisfree", "divide", "popclear", "popadd", "popready", "poptake", "round", "seed")   # answered by the real code only
 
 
 def build():
